@@ -49,6 +49,17 @@ TRANSFORMERS = {
     'filter_first': ('filter line-num == 1', 'cached'),
     'filter_nums_last': ('filter -line-nums -1', 'cached'),
     'run_cat': ('run % cat', 'cached'),
+    'run_cat_ignore': ('run -ignore-exit-code % cat', 'cached'),
+    'lower': ('char-case -to-lower', 'line'),
+    'strip': ('strip', 'line'),
+    'strip_trailing_space': ('strip -trailing-space', 'line'),
+    'grep_b': ('grep b', 'cached'),
+    'grep_full_none': ('grep -full zzz', 'cached'),
+    'replace_b_newline': ("replace b '\\n'", 'line'),
+    'replace_preserve': ('replace -preserve-new-lines a b', 'line'),
+    'filter_nums_multi': ('filter -line-nums 1 3:', 'cached'),
+    'filter_nums_but_last': ('filter -line-nums :-2', 'cached'),
+    'replace_dirs': ('replace-test-case-dirs', 'line'),
 }
 
 
@@ -69,8 +80,28 @@ def translate(t):
 
 
 def apply_transformer(tid, t):
-    if tid in ('identity', 'replace_none', 'filter_all', 'filter_all_contents', 'filter_nums_all', 'run_cat'):
+    if tid in ('identity', 'replace_none', 'filter_all', 'filter_all_contents', 'filter_nums_all', 'run_cat',
+               'run_cat_ignore', 'replace_dirs'):
         return t
+    if tid == 'lower':
+        return t.lower()
+    if tid == 'strip':
+        return t.strip()
+    if tid == 'strip_trailing_space':
+        return t.rstrip()
+    if tid == 'replace_b_newline':
+        return t.replace('b', '\n')
+    if tid == 'replace_preserve':
+        return t.replace('a', 'b')
+    if tid == 'grep_full_none':
+        return ''
+    if tid == 'grep_b':
+        return ''.join(l for l in ref_lines(t) if 'b' in l)
+    if tid == 'filter_nums_multi':
+        ls_ = ref_lines(t)
+        return ''.join(ls_[:1] + ls_[2:])
+    if tid == 'filter_nums_but_last':
+        return ''.join(ref_lines(t)[:-1])
     if tid == 'upper':
         return t.upper()
     if tid == 'strip_nl':
